@@ -18,7 +18,8 @@ from sx import Sym, Str
 PROP = "C12"
 PROP_FILE = "C12_Fmt"
 THEOREMS = ["c12_validator_sound_complete", "c12_comments", "c12_tokens", "c12_tokens_parse",
-            "c12_fmt_ok_equivalence", "c12_reformat_preserves", "c12_idem_partial"]
+            "c12_fmt_ok_equivalence", "c12_reformat_preserves", "c12_idem_partial", "c12_lex_join",
+            "c12_join_preserves"]
 
 MANIFEST = {
     "text": "Relational specification of the formatter as a verified validator: a Gallina lexer for the formatter's token regexes with comments as first-class items (model/Fmt.v clex); fmt_ok inp out := both lex to the same token+comment sequence.  Proved for all texts: the executable validator decides fmt_ok; fmt_ok implies equal comment sequences and equal token sequences (hence equal results of any parser that is a function of the tokens); fmt_ok is an equivalence, so re-formatting any number of times preserves; idempotence without comments follows from two facts about the implementation (F1 output depends only on tokens, F2 outputs validate) that are validated on every run (partial).  Tied to /repo by running the extracted validator on every (input, output) pair produced by policies_str_to_pretty over a width x indent grid, by comparing the model lexer with the formatter's logos token stream, and by an implementation-level oracle (structural parse comparison, independent comment scanner, idempotence, respacing, re-formatting).",
@@ -215,6 +216,18 @@ def evaluate(rep, cases, harness, driver, stats):
     stats["validator_pairs"] = len(vpairs)
     stats["texts"] = len(texts)
 
+    # texts with a trailing comma before ] } ) are outside the validator's domain (the formatter
+    # deletes that comma, so the token sequence changes although the policies do not)
+    def has_trailing_comma(t):
+        its = canon_rust_items(toks_in[t]) or []
+        tk = [x for x in its if x[0] != "comment"]
+        return any(a == ("sym", (44,)) and b[0] == "sym" and b[1] in ((93,), (125,), (41,)) for a, b in zip(tk, tk[1:]))
+
+    for c in cases:
+        if not c["trailing_comma"] and has_trailing_comma(c["text"]):
+            c["trailing_comma"] = True
+            stats["trailing_comma_texts"] = stats.get("trailing_comma_texts", 0) + 1
+
     failures = []
 
     def fail(ci, cfg, what, detail, key=None, no_failing_input=False):
@@ -267,7 +280,7 @@ def evaluate(rep, cases, harness, driver, stats):
         stats["parseable"] = stats.get("parseable", 0) + 1
         if "ok" not in r1:
             stats["err_class"][r1.get("err")] = stats["err_class"].get(r1.get("err"), 0) + 1
-            fail(ci, cfg, "formatting a parseable text failed (totality)", {"result": r1}, key=key)
+            fail(ci, cfg, "formatting a parseable text failed (totality)", {"result": r1})
             continue
         o1 = r1["ok"]
         cin = fmtgen.scan_comments(t)
@@ -297,7 +310,7 @@ def evaluate(rep, cases, harness, driver, stats):
         if bad:
             for what, d in bad:
                 d = dict(d, output=o1, validator_fmt_ok=v1)
-                fail(ci, cfg, what, d, key=key)
+                fail(ci, cfg, what, d, key=key if what.startswith("comments of the output differ") else None)
         elif not v1 and not c["trailing_comma"]:
             fail(ci, cfg, "validator rejects an output that the implementation oracle accepts",
                  {"correspondence": "Fmt.fmt_okb (token+comment sequence equality) on (input, policies_str_to_pretty output); c12_* transfer through it",
